@@ -39,8 +39,9 @@ def ref_verdict(text):
     return ok, k, toks
 
 
-def shipped_tokens(text):
-    """Token list of the shipped Python lexer: (type, text, start, stop, line, column), EOF included."""
+def shipped_tokens(text, hidden=False):
+    """Token list of the shipped Python lexer: (type, text, start, stop, line, column), EOF included.
+    hidden=True: tokens off the default channel are included as well, with their channel appended."""
     import antlr4
     from blackbird.blackbirdLexer import blackbirdLexer
     lx = blackbirdLexer(antlr4.InputStream(text))
@@ -50,6 +51,8 @@ def shipped_tokens(text):
         t = lx.nextToken()
         if t.channel == 0 or t.type == -1:
             out.append((t.type, t.text, t.start, t.stop, t.line, t.column))
+        elif hidden:
+            out.append((t.type, t.text, t.start, t.stop, t.line, t.column, t.channel))
         if t.type == -1:
             break
     return out
